@@ -92,6 +92,7 @@ def run_history(parser, texts, hist, workdir):
         except Exception as ex:  # noqa: BLE001
             o["err"] = True
             o["etype"] = type(ex).__name__
+            o["etext"] = str(ex)[:4000]          # the diagnostic is output too: the same text gives the same message
         obs.append(o)
     return obs
 
